@@ -7,7 +7,7 @@
    satisfying the contract. *)
 From GL Require Import Base.Order Base.Varint Base.VarintProofs Base.Cursor Base.CursorProofs
   Codec.BytesCmp Codec.BytesCmpProofs Codec.Block Codec.BlockEnc Codec.BlockProofs Codec.BlockSliceProofs
-  Codec.Table Codec.TableProofs Codec.TableIterProofs Codec.IndexedIterProofs Codec.TableSliceProofs Codec.TableDamageProofs
+  Codec.Table Codec.TableProofs Codec.TableIterProofs Codec.IndexedIterProofs Codec.TableSliceProofs Codec.TableDamageProofs Codec.TableDamageIterProofs
   Codec.TableCheck Codec.TableCheckProofs Codec.TableWriteProofs Codec.TblCrc Gen.ConstsOkTbl.
 
 (* A.0  uvarint: Uvarint (PutUvarint x ++ rest) = (x, len) for every uint64 x. *)
@@ -145,9 +145,7 @@ Print Assumptions C13_table_damage_contained.
 
 (* ... and a reader some of whose block reads fail that way answers Find / Get exactly as the
    intact reader or with Corrupted — never with invented or misattributed data; OffsetOf is
-   unaffected.  (The analogous statement for iterators — the strict iterator stops with the error,
-   the non-strict one skips the block — is exercised by (K) on damaged tables and by (P) on every
-   single-byte alteration; it is not proved.) *)
+   unaffected. *)
 Theorem C13_table_reads_degrade_to_corruption : forall c rd rd' key filtered,
   degraded rd rd' ->
   (tfind c rd' key filtered = tfind c rd key filtered \/ tfind c rd' key filtered = FCorrupted) /\
@@ -158,6 +156,22 @@ Proof.
   split; [exact (tget_degraded c rd rd' D key) | exact (toffset_degraded c rd rd' D key)].
 Qed.
 Print Assumptions C13_table_reads_degrade_to_corruption.
+
+(* ... and the NON-STRICT iterator over a table some of whose data blocks cannot be read skips
+   exactly those blocks: every movement sequence observes what the reference cursor over the
+   pairs of the readable blocks observes (remaining original pairs, in order).  (That the STRICT
+   iterator stops with the error at the first unreadable block it touches is exercised by (K) on
+   damaged tables and by (P) on every single-byte alteration; it is not proved.) *)
+Theorem C13_table_iter_skips_unreadable : forall c rd rd' blocks seps hs (bad : nat -> bool),
+  comparer_ok c -> table_wf c rd blocks seps hs ->
+  tr_index rd' = tr_index rd ->
+  (forall j, (j < length blocks)%nat ->
+     tr_fetch rd' (nth j hs bh0) = if bad j then Corrupt else tr_fetch rd (nth j hs bh0)) ->
+  exists t, new_titer c rd' None false = inr t /\
+    forall ops, fst (ti_run c rd' t ops)
+                = c_run c (concat (map (fun j => if bad j then [] else nth j blocks []) (seq 0 (length blocks)))) CSOI ops.
+Proof. exact table_iter_skips_unreadable. Qed.
+Print Assumptions C13_table_iter_skips_unreadable.
 
 (* C.2  format membership: a reader accepted by the executable check [table_check] (every block
    re-encodes to its bytes with the given restart interval, separators and handles as required)
